@@ -129,12 +129,52 @@ def shrink_spec_case(case, keep_sched_key="scheds"):
       sp2 = copy.deepcopy(spec)
       del sp2["comps"][cname]["items"][j]
       yield dict(case, spec=sp2)
-  # drop statements inside blocks
+  # drop statements inside flip-flop blocks (a register may hold); in combinational blocks
+  # dropping a statement could remove a default assignment and create a latch, so there an
+  # `if` is only ever replaced by one of its branches
   for cname in spec["comps"]:
     items = spec["comps"][cname]["items"]
     for j, it in enumerate(items):
-      if it["k"] in ("comb", "ff") and len(it["stmts"]) > 1:
+      if it["k"] == "ff" and len(it["stmts"]) > 1:
         for q in range(len(it["stmts"]) - 1, -1, -1):
           sp2 = copy.deepcopy(spec)
           del sp2["comps"][cname]["items"][j]["stmts"][q]
           yield dict(case, spec=sp2)
+      if it["k"] == "comb":
+        for q, st in enumerate(it["stmts"]):
+          if st[0] == "if":
+            for branch in (st[2], st[3]):
+              if branch:
+                sp2 = copy.deepcopy(spec)
+                sp2["comps"][cname]["items"][j]["stmts"][q:q + 1] = copy.deepcopy(branch)
+                yield dict(case, spec=sp2)
+  # replace an assigned expression by one of its sub-expressions of the same width
+  from ..gen.spec import width as _w
+  for cname in spec["comps"]:
+    items = spec["comps"][cname]["items"]
+    for j, it in enumerate(items):
+      if it["k"] in ("comb", "ff"):
+        for q, st in enumerate(it["stmts"]):
+          if st[0] == "assign":
+            e = st[2]
+            we = _w(e)
+            for sub in _subexprs(e):
+              if sub is not e and _w(sub) == we and we is not None:
+                sp2 = copy.deepcopy(spec)
+                sp2["comps"][cname]["items"][j]["stmts"][q][2] = copy.deepcopy(sub)
+                yield dict(case, spec=sp2)
+                break
+      elif it["k"] == "lambda":
+        e = it["e"]
+        for sub in _subexprs(e):
+          if sub is not e and _w(sub) == _w(e):
+            sp2 = copy.deepcopy(spec)
+            sp2["comps"][cname]["items"][j]["e"] = copy.deepcopy(sub)
+            yield dict(case, spec=sp2)
+            break
+
+
+def _subexprs(e):
+  from ..gen.spec import walk_exprs
+  out = [x for x in walk_exprs(e) if x[0] not in ("int", "lv") and not (x[0] == "rd" and len(x) > 3)]
+  return out[1:]
